@@ -122,6 +122,7 @@ var propImports = map[string][]imp{
 		{"C04.15/E3", "C11", "request state is accessed under the socket lock", []string{"C11.1/E3|protocol/req"}},
 	},
 	"C05": {
+		{"C05.18/channels-not-shared", "C10", "each connection has a send queue of its own: a reply queued for a requester that has gone is not written to the next one that connects", []string{"C10.21/channels-not-shared|protocol/rep", "C10.21/channels-not-shared|protocol/xrep", "C10.21/channels-not-shared|protocol/respondent", "C10.21/channels-not-shared|protocol/xrespondent"}},
 		{"C05.17/waited-channel-stable", "C19", "the per-connection sender of REP/RESPONDENT keeps serving the queue replies are put on: a queue replaced under a parked sender accepts replies that are never written to the connection", []string{"C19.21/waited-channel-stable|protocol/rep", "C19.21/waited-channel-stable|protocol/xrep", "C19.21/waited-channel-stable|protocol/respondent", "C19.21/waited-channel-stable|protocol/xrespondent"}},
 		{"C05.16/lifecycle", "C13", "the protocol is told when a connection has gone (replies addressed to it are then discarded instead of blocking)", []string{"C13.2/detached", "C13.3/once-each"}},
 		{"C05.15/request-id-marker", "C03", "the id word that ends the backtrace is recognisable", []string{"C03.12/id-end-marker"}},
@@ -200,6 +201,7 @@ var propImports = map[string][]imp{
 		{"C14.7/registration", "C10", "a dialer is registered with its socket, or refused, atomically with the socket's closed state: a dialer added to a closed socket keeps dialling for ever", []string{"C10.3/socket-close|NewDialer", "C10.10/E3b|internal/core.(*socket).NewDialer", "C10.10/E3b|internal/core.(*dialer)"}},
 	},
 	"C16": {
+		{"C16.26/channels-not-shared", "C10", "what is queued for one peer is never delivered to another: per-connection queues and close channels belong to one connection", []string{"C10.21/channels-not-shared|protocol/"}},
 		{"C16.24/limit-settable-on-live-listener", "C19", "the receive limit can be lowered on a listener that is already bound: option setters answer with nil, bad-value or bad-option only, never 'wrong state'", []string{"C19.1/option-shape|transport/"}},
 		{"C16.22/attach", "C13", "a connection that dies right behind a valid handshake is taken off the protocol again: attach and the added flag change under the pipe lock, so the close that follows sees them", []string{"C13.1/addPipe"}},
 		{"C16.19/hop-word", "C09", "the hop count is the whole header word: a peer cannot smuggle a huge count past the limit in its upper bytes", []string{"C09.1/hop-normal-form"}},
